@@ -17,7 +17,7 @@ def entity_bytes_flow(ctx, rule):
         if "poll_next" in fn:
             sadt, roles, pn = MP.find_stream(ctx)
             outs = []
-            for label, p, cs in MP.stream_cases():
+            for label, p, cs in MP.stream_cases(roles):
                 outs += MP.run_case(ctx, sadt, roles, pn, p, cs)
         else:
             from . import serve_model as SM
